@@ -53,8 +53,8 @@ bounded grammar below is given to the real `Float[Duck, spec]` and judged by
                      a build while set_array_name_format holds an unknown value (refused
                      whatever the spec) and one under the format 'array',
                      for a legal spec the refused builds of its illegal relatives
-                     (refs/dims_ext.illegal_relatives), for an illegal spec the successful
-                     builds of its legal relatives -- each followed by rebuilds of the spec on
+                     (refs/dims_ext.illegal_relatives); for an illegal spec (instead of all
+                     these) the successful builds of its legal relatives -- each followed by rebuilds of the spec on
                      used, related and never-used (array type, category) combinations, which
                      must have the outcome (and, on the state_deep sub-space, the acceptance
                      vectors) of a control build of Float[Duck, spec] made just before.
@@ -621,6 +621,7 @@ def eval_arrtype(env: Env, spec: str, st, axes, soft, totality_only, info):
 # ---------------------------------------------------------------- the history dimension
 
 HIST_SCENARIOS = ["disjoint", "twomulti", "nameformat", "illegal-relatives", "legal-relatives"]
+HIST_REFUSALS = ("disjoint", "twomulti", "nameformat")  # scenarios whose operation is a build refused for a reason outside the dim string
 UNKNOWN_FORMAT = "vf-unknown-format"
 L_HIST_FRESH = "never-used category[Duck, spec]"
 L_HIST_PLAIN = "Float[Duck, spec]"
@@ -634,6 +635,8 @@ def eval_hist(env: Env, spec: str, st, soft, totality_only, base, base_vecs, tp,
     strict = st in ("ok", "error") and not soft and not totality_only
     Float, Duck, cats = env.Float, env.Duck, env.cats
     for scen in scenarios:
+        if st == "error" and not totality_only and scen in HIST_REFUSALS:
+            continue  # an illegal spec after REFUSED builds: nothing to lose; its own scenario is 'legal-relatives'
         ops = []  # (label, kind, value, must be ValueError)
         plan = None
         extra_outs = []  # builds made during the operations that are themselves judged like rebuilds
@@ -1067,8 +1070,8 @@ def run(ctx):
         + f"array type: EVERY spec of the space x {len(SCALAR_PAIRS)} (category, scalar array type) pairs + {len(UNION_PAIRS)} unions of a scalar type and an array class "
         + f"(outcome on all; acceptance of the union annotation of every legal spec over the probe shapes + 10 scalar probes, no context) + {len(OTHER_PAIRS)} other array-type expressions "
         + "(np.ndarray, Any, bound TypeVar, constrained TypeVar, nested annotation: outcome only); "
-        + "history: EVERY spec of the space x {nested build with disjoint dtypes, nested build onto an annotation with a multi-axis specifier, builds under an unknown array_name_format and under 'array', "
-        + "for legal specs <=5 illegal relatives, for illegal specs <=8 legal relatives} each followed by 2-4 rebuilds (used / related / never-used combination) compared with the baseline build "
+        + "history: EVERY spec of the space x {legal and docs-silent specs: nested build with disjoint dtypes, nested build onto an annotation with a multi-axis specifier, builds under an unknown array_name_format and under 'array', "
+        + "<=5 illegal relatives; illegal specs: <=8 legal relatives} each followed by 2-4 rebuilds (used / related / never-used combination) compared with the baseline build "
         + "by outcome and, on the sub-space state_deep_space, by acceptance vectors (one rebuild per scenario); run in jobs of their own, queued after every baseline job",
     )
     return Result(
